@@ -369,12 +369,20 @@ def run_stage(prop, stage, tier, seed, extra_args=()):
     shutil.rmtree(cdir, ignore_errors=True)
     os.makedirs(cdir, exist_ok=True)
     args = [exe, "-out", cdir, "-seed", str(seed), "-tier", tier] + list(stage.get("args", lambda t, s: [])(tier, seed)) + list(extra_args)
-    env = dict(GOENV, VERIF_DIR=VERIF, VERIF_REPO=REPO)
+    # a private temp directory per stage, removed afterwards (real builds leave
+    # apko-temp-* directories behind)
+    tmpd = os.path.join(BUILD, "tmp", "%s-%s-%d" % (prop.id, stage["name"], os.getpid()))
+    shutil.rmtree(tmpd, ignore_errors=True)
+    os.makedirs(tmpd, exist_ok=True)
+    env = dict(GOENV, VERIF_DIR=VERIF, VERIF_REPO=REPO, TMPDIR=tmpd)
     t0 = time.time()
     try:
         rc, out = sh(args, cwd=cdir, env=env, timeout=stage.get("timeout", 3000))
     except subprocess.TimeoutExpired:
+        shutil.rmtree(tmpd, ignore_errors=True)
         return {"harness_error": "harness timeout"}
+    finally:
+        shutil.rmtree(tmpd, ignore_errors=True)
     impl_viol, stats = [], {}
     for line in out.splitlines():
         if line.startswith("IMPL-VIOLATION "):
